@@ -448,7 +448,10 @@ def run(case):
                 exp = ('ok', m.last(k))
             elif name in ('pop', 'popall'):
                 k = KEYS[op[1] % len(KEYS)]
-                dflt = None if op[2] is None else ('default', VALUES[op[2] % len(VALUES)])
+                # defaults are objects that may be identical to stored values (exposes 'is default' shortcuts)
+                dflt = None if op[2] is None else VALUES[op[2] % len(VALUES)]
+                if dflt is None and op[2] is not None:
+                    dflt = 'dflt-none'
                 f = getattr(omd, name)
                 got = _call(f, k) if dflt is None else _call(f, k, dflt)
                 if m.has(k):
